@@ -546,7 +546,7 @@ func TestC03(t *testing.T) {
 	}
 	setRapidChecks(budget(2400, 600))
 	rapid.Check(t, func(rt *rapid.T) {
-		if pastDeadline() {
+		if pastDeadline() || os.Getenv("VERIF_FOCUS") == "susp" { // the latter: development aid
 			ev.Skip()
 			return
 		}
@@ -571,7 +571,7 @@ func TestC03(t *testing.T) {
 	// A crash while a call is suspended between its sub-steps and a flush of
 	// another task has completed (suspended.go); fsck clauses are C07's.
 	if !t.Failed() {
-		runSuspCampaign(t, ev, budget(1600, 4000), false, func(v *Violation) bool { return !isFsck(v) })
+		runSuspCampaign(t, ev, budget(3200, 6000), false, func(v *Violation) bool { return !isFsck(v) })
 	}
 	ev.finish(t)
 }
